@@ -12,7 +12,7 @@ import z3
 
 from . import values as V
 from .values import EngineSignal, Unsupported, SBool, SInt
-from .explore import explore, PathLimit
+from .explore import explore, PathLimit, LoopBound
 from .interp import Interp
 from .state import StateGuard
 from .unit import REGISTRY, Args, SymExec, Outcome, Undecided, run_native, model_inputs, outcome_of_exception, ContractError
@@ -140,13 +140,18 @@ def verify_case(unit_name, case, prop=None, tier="quick", opts=None):
         I.trusted_modules |= set(cfg.get("trusted_modules", ()))
         if cfg.get("loop_hook"):
             I.loop_hook = cfg["loop_hook"]
+        if cfg.get("for_hook"):
+            I.for_hook = cfg["for_hook"]
         X = SymExec(I)
+        diffs = None
         try:
             for r in unit.requires(case, a):
                 ctx.assume(r)
             try:
                 val = unit.run(X, case, a)
                 out = Outcome("return", val)
+            except LoopBound:
+                out = Outcome("loopbound")
             except EngineSignal:
                 raise
             except RecursionError:
@@ -157,19 +162,30 @@ def verify_case(unit_name, case, prop=None, tier="quick", opts=None):
             for p, n, c in unit.ensures(case, a, out, X):
                 if prop is None or p == prop or p == "*":
                     clauses.append((p, n, c))
+            ground_req = 0
             for n, c in ctx.obligations:
-                clauses.append(("*", n, SBool(c) if isinstance(c, z3.BoolRef) else c))
+                if c is True:
+                    ground_req += 1  # call-site preconditions that hold by ground evaluation: one summary clause
+                else:
+                    clauses.append(("*", n, SBool(c) if isinstance(c, z3.BoolRef) else c))
+            if ground_req:
+                clauses.append(("*", "requires:%d call-site preconditions of L0 contracts hold by ground evaluation" % ground_req, True))
             canaries = list(unit.canaries(case, a, out, X))
-            diffs = None
             diffs = guard.diff(written=[w[0] for w in ctx.writes])
+            if prop == "C09" and getattr(unit, "frame_check", False):
+                clauses.extend(frame_clauses(unit, ctx, guard, diffs))
         finally:
             guard.restore(diffs)
             interpreted.update(I.calls)
         return dict(syms=syms, out=out, clauses=clauses, canaries=canaries, diffs=diffs)
 
+    truncated = [] if getattr(unit, "truncate_ok", False) else None
+    budget = getattr(unit, "explore_budget_s", None) or opts.get("explore_budget_s", 600 if tier == "quick" else 3000)
+    if isinstance(budget, dict):
+        budget = budget[tier]
     try:
         paths = explore(fn, max_paths=unit.max_paths, timeout_ms=timeout_ms, loop_bound=unit.loop_bound,
-                        deadline=t_start + opts.get("explore_budget_s", 600 if tier == "quick" else 3000))
+                        deadline=t_start + budget, truncate=truncated, concrete_loop_bound=getattr(unit, "concrete_loop_bound", None))
     except ContractError as ex:
         guard.restore()
         res["status"] = "error"
@@ -185,6 +201,9 @@ def verify_case(unit_name, case, prop=None, tier="quick", opts=None):
         return res
     res["paths"] = len(paths)
     res["interpreted"] = sorted(interpreted)
+    if truncated:
+        res["notes"].append("bounded exploration truncated: %s[%s]: %s" % (unit_name, res["case_id"], truncated[0]))
+        res["truncated"] = truncated[0]
     final = guard.diff()  # full comparison once per case: catches mutations made by native code
     for d in final:
         res["frame_diffs"].append(dict(path=-1, owner=d[0], attr=d[1], kind=d[2]))
@@ -240,7 +259,7 @@ def verify_case(unit_name, case, prop=None, tier="quick", opts=None):
                 res["status"] = "error"
                 res["notes"].append("CANARY PASSED: %s/%s on path %d" % (unit_name, n, pi))
         # witness: a concrete input of this path, run natively; outcome and clauses must agree
-        if all_proved and (pi < n_wit or rng.random() < 0.05) and not opts.get("no_witness"):
+        if all_proved and (pi < n_wit or rng.random() < 0.05) and not opts.get("no_witness") and getattr(unit, "witness", True):
             m = _any_model(ctx.pc, timeout_ms, _small_prefs(rec["syms"]))
             if m is not None:
                 inp = _jsonable(model_inputs(decls, rec["syms"], m))
@@ -260,6 +279,15 @@ def verify_case(unit_name, case, prop=None, tier="quick", opts=None):
                             if (prop is None or p == prop or p == "*") and not b:
                                 res["status"] = "error"
                                 res["notes"].append("CROSS-CHECK: clause %s proved symbolically but false natively, inputs=%s" % (n, json.dumps(inp)[:400]))
+    fin = getattr(unit, "finalize", None)
+    if fin is not None:
+        for p, n, c in fin(case, [v["out"] for (_, k, v) in paths if k == "return"], [k for (_, k, v) in paths]):
+            if prop is None or p == prop:
+                name = "%s/%s[%s]/%s" % (p, unit_name, res["case_id"], n)
+                ok = bool(c)
+                res["obligations"].append(dict(name=name, prop=p, path=-1, verdict="proved" if ok else "failed", backend="ground", time=0, outcome="aggregate"))
+                if not ok:
+                    res["violations"].append(dict(name=name, prop=p, path=-1, verdict="failed", backend="ground", inputs=None, outcome="aggregate"))
     if not paths:
         res["status"] = "error"
         res["notes"].append("no path explored (vacuous)")
@@ -267,6 +295,30 @@ def verify_case(unit_name, case, prop=None, tier="quick", opts=None):
         res["notes"].append("no obligations for this property in this case")
     res["wall"] = time.time() - t_start
     return res
+
+
+def frame_clauses(unit, ctx, guard, diffs):
+    """C09 write frame of one path: every store the interpreter performed went to an object created during the
+    call (or to an object the contract declares as owned by the caller and writable), never to a class, a module,
+    a layout table or another pre-existing object; and the net effect on the package state is empty."""
+    import types
+
+    shared, caller = [], []
+    owned = {id(o) for o in getattr(unit, "caller_objects", [])}
+    allowed = {id(o) for o in getattr(unit, "caller_writable", [])}
+    for obj, kind, key in ctx.writes:
+        if isinstance(obj, (type, types.ModuleType)):
+            shared.append("%s %s.%s" % (kind, getattr(obj, "__name__", obj), key))
+        elif id(obj) in guard.nested:
+            oi, attr = guard.nested[id(obj)]
+            shared.append("%s into %s.%s" % (kind, guard.snap[oi][1], attr))
+        elif isinstance(obj, dict) and obj is getattr(types.ModuleType, "__dict__", None):
+            shared.append("module dict")
+        elif id(obj) in owned and id(obj) not in allowed:
+            caller.append("%s of caller's %s" % (kind, type(obj).__name__))
+    yield "C09", "frame:no-write-to-class-module-or-layout-table%s" % (" (" + "; ".join(sorted(set(shared))[:4]) + ")" if shared else ""), not shared
+    yield "C09", "frame:no-write-to-callers-arguments%s" % (" (" + "; ".join(sorted(set(caller))[:4]) + ")" if caller else ""), not caller
+    yield "C09", "frame:net-effect-on-package-state-is-empty%s" % (" (" + "; ".join("%s.%s %s" % d for d in diffs[:4]) + ")" if diffs else ""), not diffs
 
 
 def _any_model(pc, timeout_ms, prefs=None):
